@@ -204,7 +204,7 @@ class FleurIn:
                 self._set_methods[elems[-1]]()
 
     def _set_atoms(self):
-        natoms = int(self._lines.pop(0).split()[0][0])
+        natoms = int(self._lines.pop(0).split()[0])
         speci = []
         positions = []
         positions1 = []
